@@ -60,7 +60,7 @@ Lemma legacy_midnight_shift wt wn s :
   legacy_midnight wt wn s = option_map (fun u => u + (wt - wn))%Z (utc_midnight s).
 Proof. unfold legacy_midnight. destruct (utc_midnight s); cbn [option_map]; [f_equal; lia|reflexivity]. Qed.
 
-(* F117: a process in Africa/Juba (UTC+3 in 2019, UTC+2 now) and a CMC1 capture that started half an hour before
+(* C17-F2: a process in Africa/Juba (UTC+3 in 2019, UTC+2 now) and a CMC1 capture that started half an hour before
    2019-03-15 UTC: the old reading of the date says "not before", the rule of the repaired code agrees with the table *)
 Lemma fix_rule_zone_refuted_before_fix :
   exists wt wn c cmc2 cbf4k,
